@@ -16,7 +16,7 @@ func init() {
 		Assumptions: []string{"cascade-delete cycles are not driven (unbounded recursion, liveness)", "CascadeCreateUpdate declares no enforcement on delete: dangling boss references there are predicted, not reported"},
 		Plan: func(tier core.Tier, seed int64) int {
 			if tier == core.Thorough {
-				return 24000
+				return 96000
 			}
 			return 720
 		},
